@@ -146,6 +146,27 @@ pub fn check(tree: &Expr, acc: &mut Acc) {
     };
     let bad = inexpressible(tree);
     let res = compile_render(&real, &subject::options(false, None), "/dev");
+    // the answer must not depend on having been asked before (same thread, same tree)
+    let again = compile_render(&real, &subject::options(false, None), "/dev");
+    let same = match (&res, &again) {
+        (C::Ok(a), C::Ok(b)) => a == b,
+        (C::Err(a), C::Err(b)) => a == b,
+        (C::Panic(_), C::Panic(_)) => true,
+        _ => false,
+    };
+    if !same {
+        let show = |c: &C<(String, Option<crate::subject::IoMap>)>| match c {
+            C::Ok((t, _)) => format!("Ok: {}", t.lines().find(|l| l.contains("(lambda () (")).unwrap_or("").trim()),
+            C::Err(e) => format!("Err: {e}"),
+            C::Panic(p) => format!("panic: {p}"),
+        };
+        acc.violate(Violation::new(
+            "C12:second-compile-answers-differently",
+            format!("compile({}) answered {} the first time and {} the second time on the same thread", tree.show(), show(&res), show(&again)),
+            wit(),
+        ));
+        return;
+    }
     match (&res, bad.is_empty()) {
         (C::Panic(p), _) => acc.violate(Violation::new(
             format!("C12:panic:{}", panic_site(p)),
@@ -229,6 +250,37 @@ pub fn run(ctx: &Ctx) -> i32 {
             }
         }));
     }
+    // long chains: n operands under one operator (and under k negations), one unsupported
+    // construct at the front, in the middle, near each multiple of 64, or at the very end
+    let sup = supported_reps();
+    let uns = unsupported_reps();
+    let mut longs: Vec<Expr> = vec![];
+    for &n in &[9usize, 17, 33, 63, 64, 65, 66, 69, 100, 127, 128, 129, 130, 191, 192, 193, 255, 256, 257, 300] {
+        for (oi, op) in [trees::Op::And, trees::Op::Or, trees::Op::List].into_iter().enumerate() {
+            for pos in [0usize, 1, n / 2, 63.min(n - 1), 64.min(n - 1), n - 2, n - 1] {
+                let u = uns[(n + pos + oi) % uns.len()].clone();
+                let mut it = (0..n).map(|k| if k == pos { u.clone() } else { sup[k % sup.len()].clone() });
+                let mut acc_e = it.next().unwrap();
+                for e in it {
+                    acc_e = trees::bin(op, acc_e, e);
+                }
+                longs.push(acc_e);
+            }
+            // all supported: must compile
+            let mut it = (0..n).map(|k| sup[k % sup.len()].clone());
+            let mut acc_e = it.next().unwrap();
+            for e in it {
+                acc_e = trees::bin(op, acc_e, e);
+            }
+            longs.push(acc_e);
+        }
+        let mut deep = uns[n % uns.len()].clone();
+        for _ in 0..n {
+            deep = Expr::not(deep);
+        }
+        longs.push(deep);
+    }
+    acc = acc.merge(par_items(&longs, |e, acc| check(e, acc)));
     let mut extra = serde_json::Map::new();
     extra.insert("constructs_alone".into(), json!(singles.len()));
     finish(
@@ -238,7 +290,7 @@ pub fn run(ctx: &Ctx) -> i32 {
             level: "model_checking",
             exhaustive: true,
             rule: "state = expression tree built through the public constructors; compile() must fail exactly when the tree contains a construct of the spec-side 'inexpressible' partition, with an error text containing the subject's own name of one such construct in the tree; successful programs must read back with no unbound identifier; distinct = distinct error texts".into(),
-            bound: format!("every construct of the vocabulary alone, negated and parenthesised ({} leaves); every tree with 2..{maxn} leaves over 3 supported + 8 unsupported representatives + true/false with all operators (dead branches included)", singles.len()),
+            bound: format!("every construct of the vocabulary alone, negated and parenthesised ({} leaves); every tree with 2..{maxn} leaves over 3 supported + 8 unsupported representatives + true/false with all operators (dead branches included); chains of 9..300 operands (around every multiple of 64) under each operator with one unsupported construct at 7 positions, and under 9..300 negations; every compile is issued twice and the answers compared", singles.len()),
             assumptions: vec![
                 "partition expressible/inexpressible: harness/speclib/src/eval.rs::inexpressible (from the subject's ast.rs comment block and the LiPE vocabulary)".into(),
                 "the \\c escape may be refused or compiled".into(),
